@@ -119,6 +119,8 @@ def pred(case):
     try:
         if it == 'alias':
             return pred_alias(case)
+        if it in ('tdotx', 'coords', 'signedm', 'pvr', 'fitplane'):
+            return pred_forms(case)
         if it == 'jsum':
             s, a, b = case['s'], case['alpha'], case['beta']
             x = np.asarray(case['x'], dtype=float)
@@ -393,6 +395,180 @@ def alias_cases(rng, count):
             k = len(cs)
             case['nms'] = [[int(rng.integers(0, 5)), int(rng.integers(-3, 4))] for _ in range(k)]
         out.append(case)
+        i += 1
+    return out
+
+
+
+# ------------------------------------------------------------------------------------------------
+# argument forms: dtypes of modes / weights / coordinates, signed m, consumers
+# ------------------------------------------------------------------------------------------------
+MODE_DTYPES = ['f64', 'f32', 'i64', 'bool', 'c128']
+WEIGHT_FORMS = ['f64', 'f32', 'i64', 'c128', 'list']
+COORD_FORMS = ['i64', 'i32', 'f32', '0d', '2d', '3d', 'f64-strided', 'pyfloat', 'npfloat']
+COORD_ROUTINES = ['jsum', 'qbfs', 'q2dalphas', 'q2d', 'zzqbfs', 'zzqcon']
+
+
+def coord_as(v, form):
+    v = np.asarray(v, dtype=float)
+    if form == 'i64':
+        return v.astype(np.int64)
+    if form == 'i32':
+        return v.astype(np.int32)
+    if form == 'f32':
+        return v.astype(np.float32)
+    if form == '0d':
+        return np.array(v.ravel()[0])
+    if form == '2d':
+        return np.stack([v, v[::-1]])
+    if form == '3d':
+        return np.stack([v, v[::-1]]).reshape(2, 1, v.size)
+    if form == 'f64-strided':
+        big = np.zeros(2 * v.size)
+        big[::2] = v
+        return big[::2]
+    if form == 'pyfloat':
+        return float(v.ravel()[0])
+    if form == 'npfloat':
+        return np.float64(v.ravel()[0])
+    raise C.ToolError(form)
+
+
+def coord_ref(v, form):
+    v = np.asarray(v, dtype=float)
+    if form in ('0d', 'pyfloat', 'npfloat'):
+        return np.array(v.ravel()[0])
+    if form == '2d':
+        return np.stack([v, v[::-1]])
+    if form == '3d':
+        return np.stack([v, v[::-1]]).reshape(2, 1, v.size)
+    return v.copy()
+
+
+def pred_forms(case):
+    P, qp, J = _impl()
+    it = case['item']
+    if it == 'tdotx':
+        k, md, wf, mism = case['k'], case['modes_dtype'], case['w_form'], case['mismatch']
+        base = (np.arange(k * 6).reshape(k, 2, 3) * 7 % 5 - 2)
+        if md == 'bool':
+            base = (base > 0)
+        mvals = base.astype(complex) * ((1 + 0.5j) if md == 'c128' else 1)
+        modes = mvals.real.astype({'f64': np.float64, 'f32': np.float32, 'i64': np.int64, 'bool': bool}[md]) if md != 'c128' else mvals
+        wv = [complex(a, b) for a, b in case['w']]
+        if wf != 'c128':
+            wv = [complex(v.real, 0) for v in wv]
+        if wf == 'i64':
+            wv = [complex(round(v.real * 4), 0) for v in wv]
+        w = {'f64': lambda: np.array([v.real for v in wv]), 'f32': lambda: np.array([v.real for v in wv], dtype=np.float32),
+             'i64': lambda: np.array([int(v.real) for v in wv]), 'c128': lambda: np.array(wv), 'list': lambda: [v.real for v in wv]}[wf]()
+        if mism:
+            w = w[:-1] if mism < 0 else (list(w) + [1.0] if isinstance(w, list) else np.concatenate([w, w[:1]]))
+            try:
+                got = P.sum_of_2d_modes(modes, w)
+            except Exception:
+                return True, ''          # a length mismatch must be refused, not silently truncated
+            return False, f'sum_of_2d_modes accepted {len(modes)} modes with {len(w)} weights and returned an array of shape {np.shape(got)}'
+        if wf == 'f32':
+            wv = [complex(float(np.float32(v.real)), 0) for v in wv]
+        exp = sum(wk * mk for wk, mk in zip(wv, mvals))
+        got = np.asarray(P.sum_of_2d_modes(modes, w))
+        tol = 1e-5 if 'f32' in (md, wf) else 1e-12
+        ok = got.shape == exp.shape and close(got.real, exp.real, tol) and close(np.imag(got), exp.imag, tol)
+        return ok, f'sum_of_2d_modes({md} modes, {wf} weights)={np.ravel(got)[:3]} explicit sum={np.ravel(exp)[:3]}'
+    if it == 'coords':
+        rt, form, cs, m = case['routine'], case['form'], case['cs'], case['m']
+        integral = form in ('i64', 'i32')
+        if rt == 'jsum':
+            v = np.array([-1, 0, 1] if integral else case['pts'], dtype=float)
+            fn = lambda x: J.jacobi_sum_clenshaw(cs, case['alpha'], case['beta'], x)                 # noqa: E731
+        else:
+            v = np.array([0, 1, 1] if integral else case['upts'], dtype=float)
+            tv = np.array(case['tpts'], dtype=float)
+            if rt == 'qbfs':
+                fn = lambda u: qp.clenshaw_qbfs(cs, u * u)                                            # noqa: E731
+            elif rt == 'q2dalphas':
+                fn = lambda u: qp.clenshaw_q2d(cs, m, u * u)                                          # noqa: E731
+            elif rt == 'zzqbfs':
+                fn = lambda u: qp.compute_z_zprime_Qbfs(cs, u, u * u)[0]                              # noqa: E731
+            elif rt == 'zzqcon':
+                fn = lambda u: qp.compute_z_zprime_Qcon(cs, u, u * u)[0]                              # noqa: E731
+            elif rt == 'q2d':
+                pad = [[] for _ in range(m - 1)]
+                tt = np.round(tv) if integral else tv
+                fn = lambda u: qp.compute_z_zprime_Q2d(None if case.get('cm0_none') else cs, pad + [case['cs2']], pad + [cs], u,   # noqa: E731
+                                                       coord_as(tt, form) if not hasattr(u, 'dtype') or u.dtype != np.float64 or form in ('2d', '3d', '0d', 'f64-strided') else coord_ref(tt, form))[0]
+            else:
+                raise C.ToolError(rt)
+        exp = np.array(fn(coord_ref(v, form)), dtype=float)
+        got = np.array(fn(coord_as(v, form)), dtype=float)
+        tol = 1e-4 if form == 'f32' else TOL
+        if got.shape != exp.shape:
+            return False, f'{rt} on {form} coordinates: shape {got.shape}, on the float64 array {exp.shape}'
+        return close(got, exp, tol), (f'{rt} on {form} coordinates: {np.ravel(got)[:4]}; on the float64 array with the same values: '
+                                      f'{np.ravel(exp)[:4]}')
+    if it == 'signedm':
+        cs, m = case['cs'], case['m']
+        u = np.array(case['u'], dtype=float)
+        exp = sum(c * qp.Q2d(n, m, u.copy(), np.zeros_like(u)) for n, c in enumerate(cs)) / u ** m
+        al = qp.clenshaw_q2d(cs, -m, u * u)
+        got = 0.5 * al[0] - (0.4 * al[3] if (m == 1 and len(cs) > 3) else 0.0)
+        return close(got, exp), f'clenshaw_q2d(m=-{m}) read-out {np.ravel(got)[:3]}; sum c_n Q_n^{m} (the radial part is the same for +-m) {np.ravel(exp)[:3]}'
+    if it == 'pvr':
+        from prysm.interferogram import Interferogram
+        n = case['n']
+        ifg = Interferogram(np.zeros((n, n)), 1.0, 0.6328)
+        r, t = ifg.r, ifg.t
+        rn = r / r[n - 1, n // 2]
+        nms = [P.fringe_to_nm(j) for j in case['terms']]
+        modes = P.zernike_nm_seq(nms, rn, t, norm=False)
+        data = P.sum_of_2d_modes(modes, np.array(case['c']))
+        ifg = Interferogram(data.copy(), 1.0, 0.6328)
+        inside = data[rn <= 1]
+        exp = float(inside.max() - inside.min())
+        got = float(ifg.pvr())
+        return abs(got - exp) <= 1e-8 * max(1.0, abs(exp)), f'Interferogram.pvr of a surface inside the span of the 36 fitted terms = {got}; its PV over the aperture = {exp}'
+    if it == 'fitplane':
+        from prysm.interferogram import fit_plane
+        from prysm.coordinates import make_xy_grid
+        x, y = make_xy_grid(tuple(case['shape']), diameter=2)
+        a, b = case['c']
+        z = a * x + b * y
+        z = np.array(z)
+        for i in case['drop']:
+            z.ravel()[i] = np.nan
+        got = fit_plane(x, y, relayout(z, case['layout']))
+        return close(got, a * x + b * y, 1e-9), f'fit_plane does not return the plane {a} x + {b} y'
+    raise C.ToolError(it)
+
+
+def form_cases(rng, count):
+    out = []
+    i = 0
+    while len(out) < count:
+        sel = i % 10
+        n = int(rng.integers(1, 7))
+        cs = [float(int(v)) / 2 for v in rng.integers(-6, 7, n)]
+        if not any(cs):
+            cs[-1] = 1.0
+        a, b = AB[i % len(AB)]
+        if sel < 3:
+            k = int(rng.integers(1, 5))
+            out.append({'item': 'tdotx', 'k': k, 'modes_dtype': MODE_DTYPES[(i // 10) % len(MODE_DTYPES)], 'w_form': WEIGHT_FORMS[(i // 50) % len(WEIGHT_FORMS)],
+                        'w': [[float(int(v) / 4), float(int(q) / 4)] for v, q in zip(rng.integers(-8, 9, k), rng.integers(-8, 9, k))],
+                        'mismatch': [0, 0, 0, -1, 1][(i // 3) % 5] if k > 1 else 0})
+        elif sel < 8:
+            rt = COORD_ROUTINES[(i // 10) % len(COORD_ROUTINES)]
+            out.append({'item': 'coords', 'routine': rt, 'form': COORD_FORMS[(i // 3) % len(COORD_FORMS)], 'cs': cs,
+                        'cs2': [float(int(v)) / 2 for v in rng.integers(-6, 7, int(rng.integers(1, 6)))], 'alpha': a, 'beta': b,
+                        'm': 1 + (i // 7) % 3, 'cm0_none': bool(i % 4 == 0), 'pts': [float(v) for v in rng.uniform(-0.9, 0.9, 3)],
+                        'upts': [float(v) for v in rng.uniform(0.05, 0.95, 3)], 'tpts': [float(v) for v in rng.uniform(0, 6, 3)]})
+        elif sel == 8:
+            out.append({'item': 'signedm', 'cs': cs, 'm': 1 + (i // 10) % 4, 'u': [float(v) for v in rng.uniform(0.1, 0.95, 2)]})
+        else:
+            nn = 6 * 7
+            out.append({'item': 'fitplane', 'shape': [6, 7], 'c': [float(int(v)) / 4 for v in rng.integers(-8, 9, 2)],
+                        'drop': sorted(int(v) for v in rng.choice(nn, size=5, replace=False)), 'layout': LAYOUTS[(i // 10) % len(LAYOUTS)]})
         i += 1
     return out
 
@@ -789,6 +965,21 @@ def correspondence(ctx):
         ok, detail = pred(case)
         if not ok:
             ctx.pred_fail('alias', case, detail)
+
+    # ------------------------------------------------ dtypes of modes / weights / coordinates, signed m, consumers of lstsq
+    for case in form_cases(rng, ctx.scale(400, 4000)):
+        ctx.case(case['item'], case, nontrivial=True, tag='/'.join(str(case.get(k)) for k in ('routine', 'form', 'modes_dtype', 'w_form') if case.get(k)))
+        ok, detail = pred(case)
+        if not ok:
+            ctx.pred_fail(case['item'], case, detail)
+    for n_ in ((33, 48) if not ctx.thorough else (33, 48, 65, 96)):
+        for ti in range(ctx.scale(2, 5)):
+            terms = sorted(int(v) for v in rng.choice(np.arange(1, 37), size=6, replace=False))
+            case = {'item': 'pvr', 'n': n_, 'terms': terms, 'c': [float(int(v)) / 8 for v in rng.integers(-8, 9, 6)]}
+            ctx.case('pvr', case, nontrivial=True, tag=f'n{n_}')
+            ok, detail = pred(case)
+            if not ok:
+                ctx.pred_fail('pvr', case, detail)
 
     # ------------------------------------------------ lstsq
     for ci, case in enumerate(lstsq_cases(ctx)):
